@@ -27,3 +27,52 @@ func c02LiteralPrefixes() []string {
 	}
 	return out
 }
+
+// c02SyntaxIdioms: one or more small inputs for every token-level construct that has a
+// scanner/parser path of its own (incl. the error-recovery paths): attributes with nested
+// brackets, strings, interpolations, raw strings and comments inside; interpolations nested in
+// strings, bytes and multi-line strings; #-quoted forms; comments; ellipsis; every bracket kind;
+// number forms; operators made of several bytes.
+var c02SyntaxIdioms = []string{
+	// attributes
+	`@x()`, `@x(a,b=c)`, `@x(a=(b,c))`, `@x(a=[1,{b:2}])`, `@x("a)b")`, `@x('a)b')`, `@x(#"a"#)`, "@x(\"\"\"\n\ta\n\t\"\"\")",
+	`@x("\(b)")`, `@x(a="\(b)",c)`, `@x(("\(b)"))`, `@x(#"\#(b)"#)`, `@x('\(b)')`, `@x(// c` + "\n)", `@x(/* c */)`, `@x(a\)b)`, `@x((()))`, `@x(]`, `@x(})`,
+	`a: 1 @x("\(b)")`, `a: 1 @x(y) @z(w)`, `@x(a="b" // c` + "\n)", `a: {@x(y)}`, `@x.y(z)`, `@(`, `@x`,
+	// interpolations
+	`"\(a)"`, `"a\(b)c\(d)e"`, `"\("\(a)")"`, `"\(a + "\(b + "\(c)")")"`, `'\(a)'`, `'\('\(a)')'`, `#"\#(a)"#`, `##"\##(a) \#(b)"##`,
+	"\"\"\"\n\t\\(a)\n\t\"\"\"", "'''\n\t\\(a)\n\t'''", "#\"\"\"\n\t\\#(a)\n\t\"\"\"#", `"\({a: 1}.a)"`, `"\([1][0])"`, `"\((1))"`, `"\(a"`, `"\()"`, `"\(a b)"`, `"\(`,
+	// strings, bytes, escapes
+	`"a\nb\"c"`, `'a\x00\377'`, `"éé\U0001F600"`, `#"a"b\#n"#`, `#'a'#`, `##"a"#b"##`, `"\q"`, `"\u12"`, `'\x4'`, `"a` + "\n" + `"`, "\"\"\"\n\"\"\"", "\"\"\"a\n\"\"\"", "'''\n\ta\n'''",
+	// comments
+	`// c`, `/* c */`, `/* c`, `/* a /* b */ c */`, `a: 1 // c`, `// c` + "\r\n" + `a: 1`, `/**/`, `/`,
+	// brackets and ellipsis
+	`[1, 2]`, `[...]`, `[...int]`, `[1, ...int]`, `{...}`, `{a: 1, ...}`, `{[string]: 1}`, `{(a): 1}`, `{"\(a)": 1}`, `((1))`, `[{(1)}]`, `a[0][1:2]`, `a.b.c`, `a?.b`, `..`, `. ..`, `)`, `]`, `}`,
+	// declarations and clauses
+	`package p`, `import "x"`, `import (` + "\n" + `"x"` + "\n" + `y "z")`, `let X = 1`, `a: b: c: 1`, `a?: 1`, `a!: 1`, `#A: 1`, `_a: 1`, `_#a: 1`, `"a": 1`, `a: 1, b: 2`,
+	`for k, v in a {b: v}`, `if a {b: 1}`, `[for x in a if x > 1 let y = x {y}]`, `X=a: 1`, `a: X={b: 1}`, `[X=string]: 1`, `a: 1 | *2`, `a: _|_`, `a: _`, `a: __x`,
+	// numbers and operators
+	`1.5e+10`, `.5`, `5.`, `0x1F`, `0b101`, `0o17`, `1_0`, `1Ki`, `1.5M`, `1e`, `0x`, `1__0`, `01`, `1.2.3`,
+	`a: 1+2*3/4-5`, `a: 1 div 2 mod 3 quo 4 rem 5`, `a: !b && c || d`, `a: b == c != d <= e >= f =~ g !~ h`, `a: <1 & >2 | !=3`, `a: b & c | d`, `a: -b`, `a: +1`, `<-`, `->`, `=`, `$a`, "`", `\`, `a: #`, `?`, `!`, `~`, `^`, `%`,
+}
+
+// c02SyntaxSuffixes: what every prefix is continued with. "" first: the input ENDS where the
+// prefix ends (no newline is ever appended to these cases).
+var c02SyntaxSuffixes = []string{"", "\n", ")", "\"", "\\", "(", "\x00", "\xff"}
+
+// c02SyntaxPrefixes: every byte prefix of every idiom followed by every suffix, as raw bytes.
+func c02SyntaxPrefixes() []string {
+	var out []string
+	seen := map[string]bool{}
+	for _, l := range c02SyntaxIdioms {
+		for i := 1; i <= len(l); i++ {
+			for _, suf := range c02SyntaxSuffixes {
+				src := l[:i] + suf
+				if !seen[src] {
+					seen[src] = true
+					out = append(out, src)
+				}
+			}
+		}
+	}
+	return out
+}
